@@ -672,6 +672,48 @@ func scenC07(r *Run, judged bool) {
 			act = g.nextMash()
 		}
 		typed = append(typed, fmt.Sprintf("%q", act))
+		if judged && !m.lost && m.mode == "normal" && len(act) > 1 && act[0] == 0 {
+			// cursor keys pressed in quick succession, without waiting for loads: how far each one
+			// gets depends on what has been loaded by then (not predicted). Afterwards, when all is
+			// settled, the highlighted item must be an item of this page, and the model carries on
+			// from there: later keys must behave normally (nothing may be left half-loaded).
+			for _, c := range act[1:] {
+				ki := u.Key(c)
+				r.Drive(func() bool { return u.Returned(ki) }, hugeHorizon, stepCap)
+			}
+			if !r.Settle(stepCap) {
+				uiLiveness(r, u, false)
+				return
+			}
+			m.footer = ""
+			fr, _ := u.LastFrame()
+			got := sigOf(observe(fr.Text).cursor)
+			p := m.page()
+			found := -1
+			for i, it := range p.items {
+				if it.sig == got {
+					if found >= 0 {
+						found = -2 // ambiguous
+						break
+					}
+					found = i
+				}
+			}
+			switch {
+			case found >= 0:
+				p.cur = found
+				r.S.Probe("resynchronised_after_fast_cursor_keys")
+			case found == -1 && len(p.items) > 0:
+				viol("wrong-item-highlighted", fmt.Sprintf("after the fast cursor keys %q the highlighted item %q is not an item of the current page (%d items) (keys so far %v)", act[1:], got, len(p.items), typed))
+				return
+			default:
+				m.lost, m.why = true, "ambiguous position after fast cursor keys"
+			}
+			if !compare(fmt.Sprintf("%q", act)) {
+				return
+			}
+			continue
+		}
 		for ci, c := range act {
 			ki := u.Key(c)
 			m.key(c)
@@ -737,7 +779,14 @@ func burstAction(act []byte) bool {
 // keymap leaves open.
 func (g *keyGen) nextJudged(m *kmModel) []byte {
 	t := g.r.W
-	switch t.Weighted(9, 7, 4, 2, 4, 3, 2, 4, 3, 1, 2, 1, 4, 3) {
+	switch t.Weighted(9, 7, 4, 2, 4, 3, 2, 4, 3, 1, 2, 1, 4, 3, 3) {
+	case 14:
+		// fast cursor keys (marker byte 0, never sent): see the session loop
+		b := []byte{0}
+		for k := 2 + t.Draw(4); k > 0; k-- {
+			b = append(b, "jjkkg"[t.Draw(5)])
+		}
+		return b
 	case 13:
 		// open something externally and go on typing while the hook runs
 		first := []string{"o", "p", "b", "1\r", "2\r"}[t.Draw(5)]
